@@ -1,7 +1,7 @@
 (* Properties_C17.v — C17: background workers are always released.
    nodes: ConcModel.v / ConcLive.v (threads of an iterator after its stop event is set);
    StatefulDataLoader: SdlProcs.v (the worker-process table across histories). *)
-From PD Require Import Base ConcModel ConcInv ConcLive SdlProcs.
+From PD Require Import Base ConcModel ConcInv ConcLive ConcOwner ConcSnap ConcPM ConcProg SdlProcs.
 Open Scope nat_scope.
 
 (* ---- nodes ---- *)
@@ -41,6 +41,24 @@ Print Assumptions C17_live_worker_can_move.
 Theorem C17_live_sorter_can_move : forall g, g_s g <> SDone -> s_move Go g \/ s_move Timeout g.
 Proof. exact live_thread_can_move_s. Qed.
 Print Assumptions C17_live_sorter_can_move.
+
+(* _shutdown() really waits for the threads: a join() on a thread that is alive does not return before it has finished
+   (the only other way out is the join's own timeout, C12's known finding D10 for the reader) ... *)
+Theorem C17_join_blocks_while_alive : forall c g k, g_c g = CShJoin k -> stage_alive c g k = true -> cstep c Go g = (g, None).
+Proof. exact join_blocks_while_alive. Qed.
+Print Assumptions C17_join_blocks_while_alive.
+(* ... it reports completion only when every thread it has not yet passed (reader, sorter, each worker) is dead ... *)
+Theorem C17_shutdown_returns_when_all_dead : forall c g k, snd (after_join c g k) = Some OutShut ->
+  forall j, k <= j -> j < 2 + k_nw c -> stage_alive c g j = false.
+Proof. exact shutdown_returns_when_all_dead. Qed.
+Print Assumptions C17_shutdown_returns_when_all_dead.
+(* ... and a thread that has finished stays finished, whatever moves next *)
+Theorem C17_dead_stays_dead : forall c g,
+  (forall m pos, g_r g = RDone -> g_r (fst (rstep c m g pos)) = RDone) /\
+  (forall m, g_s g = SDone -> g_s (sstep c m g) = SDone) /\
+  (forall i j m, nth_error (g_ws g) j = Some WDone -> nth_error (g_ws (wstep c i m g)) j = Some WDone).
+Proof. intros c g. split; [intros; apply rstep_dead; assumption | split; [intros; apply sstep_dead; assumption | intros; apply wstep_dead; assumption]]. Qed.
+Print Assumptions C17_dead_stays_dead.
 
 (* ---- StatefulDataLoader ---- *)
 (* for every history of iter / exhaust / drop / state_dict / load_state_dict, persistent workers or not: at most two
